@@ -742,6 +742,9 @@ protected:
 				}
 				f.setbits(fraction);
 				if (s) f.twosComplement(); // if negative, map to two's complement in all nbits
+				if constexpr (arithmetic == Saturate) {
+					if (!s && f.sign()) f.maxpos(); // rounding up a value just above maxpos carried into the sign bit
+				}
 			}
 			else {
 				int shiftLeft = -shiftRight;
